@@ -224,7 +224,30 @@ def expected_rows(log, n_chain, n_warm, n_main, trace_warm_up):
     return rows, per
 
 
-def run_real(n_warm, n_main, inits, n_process=1, assignment=None, order=None, seed=20240601, stager="default"):
+def make_rng(kind, seed):
+    """Generators of the supported kinds whose stream is a deterministic function of ``seed`` (some of them carry a state that
+    does not come from their own seed sequence: jumped copies get a fresh OS-entropy SeedSequence, a restored state none)."""
+    R = np.random
+    if kind == "pcg64":
+        return R.default_rng(seed)
+    if kind == "pcg64_jumped":
+        return R.Generator(R.PCG64(seed).jumped(3))
+    if kind == "mt19937_jumped":
+        return R.Generator(R.MT19937(seed).jumped(2))
+    if kind == "philox_jumped":
+        return R.Generator(R.Philox(seed).jumped(1))
+    if kind == "sfc64":
+        return R.Generator(R.SFC64(seed))
+    if kind == "pcg64_state_restored":
+        g = R.Generator(R.PCG64())
+        g.bit_generator.state = R.PCG64(seed).state
+        return g
+    if kind == "legacy_randomstate":
+        return R.RandomState(seed % (2 ** 32))
+    raise KeyError(kind)
+
+
+def run_real(n_warm, n_main, inits, n_process=1, assignment=None, order=None, seed=20240601, stager="default", rng_kind="pcg64"):
     """The real sampler with the REAL numpy Generator, real Hamiltonian transition, real step-size and metric adapters (floats),
     under the same multiprocessing model: returns the traced positions / accept statistics / final states / adapted parameters."""
     import mici.systems as S
@@ -237,7 +260,7 @@ def run_real(n_warm, n_main, inits, n_process=1, assignment=None, order=None, se
     ModelPool.order = order
     system = S.EuclideanMetricSystem(_nld, grad_neg_log_dens=_grad)
     integ = IN.LeapfrogIntegrator(system)
-    sampler = SA.StaticMetropolisHMC(system, integ, np.random.default_rng(seed), n_step=2)
+    sampler = SA.StaticMetropolisHMC(system, integ, make_rng(rng_kind, seed), n_step=2)
     ads = [AD.DualAveragingStepSizeAdapter(), AD.OnlineVarianceMetricAdapter()]
     stg = {"default": None, "windowed111": WindowedWarmUpStager(1, 1, 1)}[stager]
     out = sampler.sample_chains(n_warm, n_main, [np.array([float(x)]) for x in inits], trace_funcs=[_trace_real], adapters=ads, stager=stg,
